@@ -44,6 +44,10 @@ def maxLen : List Name → Nat
   | [] => 0
   | w :: r => max w.length (maxLen r)
 
+/-- the words the spelling model is trained on: the names and aliases of at most `bound` characters (fix O8-4;
+`Gen.ResolveOrder.fuzzyMaxWordLen`) -/
+def trained (bound : Nat) (names : List Name) : List Name := names.filter (fun w => decide (w.length ≤ bound))
+
 /-- the words within distance 2 of the request -/
 def near (words : List Name) (req : Name) : List Name := (dedup words).filter (fun w => withinK 2 req w)
 
